@@ -39,11 +39,13 @@ structure Writer where
   bitsLeft : Int := -24
   buffer : Array UInt8 := #[]
 
-/-- carry propagation in send_to_output -/
-partial def carry (buf : Array UInt8) (x : Nat) : Array UInt8 :=
-  if buf.getD x 0 == 255 then
-    if x = 0 then buf.set! x 0 else carry (buf.set! x 0) (x - 1)
-  else buf.set! x (buf.getD x 0 + 1)
+/-- carry propagation in send_to_output: 0xFF bytes become 0 going backwards, the first other byte is
+    incremented (the Rust asserts it never runs off the front of the buffer) -/
+def carry (buf : Array UInt8) : Nat → Array UInt8
+  | 0 => if buf.getD 0 0 == 255 then buf.set! 0 0 else buf.set! 0 (buf.getD 0 0 + 1)
+  | x + 1 =>
+      if buf.getD (x + 1) 0 == 255 then carry (buf.set! (x + 1) 0) x
+      else buf.set! (x + 1) (buf.getD (x + 1) 0 + 1)
 
 def Writer.putSplit (w : Writer) (value : Bool) (split : Nat) : Writer :=
   let (low, range) := if value then (u32 (w.low + split), w.range - split) else (w.low, split)
@@ -84,17 +86,19 @@ structure Reader where
 
 def lz32 (x : Nat) : Nat := if x = 0 then 32 else 31 - Nat.log2 x
 
-partial def Reader.fillLoop (value : Nat) (count : Int) (shift : Int) (input : Array UInt8) (pos : Nat) :
-    Nat × Int × Nat :=
-  if shift ≥ 0 then
-    if pos < input.size then
-      fillLoop (value ||| ((input.getD pos 0).toNat <<< shift.toNat)) (count + 8) (shift - 8) input (pos + 1)
-    else (value, count, pos)
-  else (value, count, pos)
+/-- vpx_reader_fill: at most 8 bytes fit the 64-bit window -/
+def Reader.fillLoop : Nat → Nat → Int → Int → Array UInt8 → Nat → Nat × Int × Nat
+  | 0, value, count, _, _, pos => (value, count, pos)
+  | fuel + 1, value, count, shift, input, pos =>
+      if shift ≥ 0 then
+        if pos < input.size then
+          fillLoop fuel (value ||| ((input.getD pos 0).toNat <<< shift.toNat)) (count + 8) (shift - 8) input (pos + 1)
+        else (value, count, pos)
+      else (value, count, pos)
 
 def Reader.fill (r : Reader) : Reader :=
   let shift : Int := 56 - (r.count + 8)
-  let (v, c, p) := Reader.fillLoop r.value r.count shift r.input r.pos
+  let (v, c, p) := Reader.fillLoop 9 r.value r.count shift r.input r.pos
   { r with value := v, count := c, pos := p }
 
 def Reader.getSplit (r : Reader) (split : Nat) : Bool × Reader :=
